@@ -1,0 +1,125 @@
+//go:build verif
+
+package synchronization
+
+// Contracts for session selection and listing (property C40). Comment-only
+// file: compiled only under the "verif" build tag, contains no code. The "//@"
+// lines are read by govc.
+
+// ------------------------------------------------------------ selection
+// The registry m.sessions maps identifiers to controllers; "c is a session"
+// means that c is the value of some key of the registry.
+
+//@ pred insess(m, k) = m.sessions != nil && has(m.sessions, k)
+//@ pred issession(m, c) = exists k string :: insess(m, k) && m.sessions[k] == c
+//@ pred injective(m) = forall k1 string :: forall k2 string :: insess(m, k1) && insess(m, k2) && m.sessions[k1] == m.sessions[k2] ==> k1 == k2
+//@ pred specmatch(c, s) = c.session.Identifier == s || c.session.Name == s
+
+// Selection by identifier or name. On success the result is, as a set, exactly
+// the sessions that match at least one specification, and lists no session
+// twice; the call fails exactly when some specification matches no session.
+// The registry is not changed.
+//@ func (*Manager).findControllersBySpecification
+//@   requires m != nil && m.sessionsLock != nil && m.sessionsLock.tracker != nil
+//@   ensures[sound] result1 == nil ==> forall i in 0..len(result0) :: issession(m, result0[i]) && (exists j in 0..len(specifications) :: specmatch(result0[i], specifications[j]))
+//@   ensures[complete] result1 == nil ==> forall k string :: insess(m, k) && (exists j in 0..len(specifications) :: specmatch(m.sessions[k], specifications[j])) ==> (exists i in 0..len(result0) :: result0[i] == m.sessions[k])
+//@   ensures[nodup] result1 == nil ==> forall i in 0..len(result0) :: forall j in 0..i :: result0[i] != result0[j]
+//@   ensures[error] result1 != nil ==> exists j in 0..len(specifications) :: forall k string :: insess(m, k) ==> !specmatch(m.sessions[k], specifications[j])
+//@   ensures[noerror] result1 == nil ==> forall j in 0..len(specifications) :: exists k string :: insess(m, k) && specmatch(m.sessions[k], specifications[j])
+//@   ensures[registry] m.sessions == old(m.sessions) && forall k string :: insess(m, k) == old(insess(m, k)) && m.sessions[k] == old(m.sessions[k])
+//@   loop 1 invariant[outer] rangeindex < len(specifications) && controllerSet != nil
+//@   loop 1 invariant[set] forall c *controller :: has(controllerSet, c) <==> issession(m, c) && (exists j in 0..rangeindex+1 :: specmatch(c, specifications[j]))
+//@   loop 1 invariant[allmatch] forall j in 0..rangeindex+1 :: exists k string :: insess(m, k) && specmatch(m.sessions[k], specifications[j])
+//@   loop 2 invariant[matched] matched <==> exists k string :: visited(k) && insess(m, k) && specmatch(m.sessions[k], specification)
+//@   loop 2 invariant[set] forall c *controller :: has(controllerSet, c) <==> pre(has(controllerSet, c)) || (exists k string :: visited(k) && insess(m, k) && m.sessions[k] == c && specmatch(c, specification))
+//@   loop 3 invariant[list] forall i in 0..len(controllers) :: visited(controllers[i]) && has(controllerSet, controllers[i])
+//@   loop 3 invariant[listed] forall c *controller :: visited(c) ==> exists i in 0..len(controllers) :: controllers[i] == c
+//@   loop 3 invariant[nodup] forall i in 0..len(controllers) :: forall j in 0..i :: controllers[i] != controllers[j]
+
+// Selection by label selector. On success the result is, as a set, exactly the
+// sessions whose labels the selector matches (label semantics: see package
+// selection); it lists no session twice if the registry holds no controller
+// under two keys; the call fails exactly when the selector text is malformed.
+//@ func (*Manager).findControllersByLabelSelector
+//@   requires m != nil && m.sessionsLock != nil && m.sessionsLock.tracker != nil
+//@   ensures[sound] result1 == nil ==> forall i in 0..len(result0) :: issession(m, result0[i]) && selection.labelmatch(labelSelector, result0[i].session.Labels)
+//@   ensures[complete] result1 == nil ==> forall k string :: insess(m, k) && selection.labelmatch(labelSelector, m.sessions[k].session.Labels) ==> (exists i in 0..len(result0) :: result0[i] == m.sessions[k])
+//@   ensures[nodup] result1 == nil && injective(m) ==> forall i in 0..len(result0) :: forall j in 0..i :: result0[i] != result0[j]
+//@   ensures[error] (result1 == nil) == selection.selvalid(labelSelector)
+//@   loop 1 invariant[list] forall i in 0..len(controllers) :: exists k string :: visited(k) && insess(m, k) && m.sessions[k] == controllers[i] && selection.labelmatch(labelSelector, controllers[i].session.Labels)
+//@   loop 1 invariant[listed] forall k string :: visited(k) && insess(m, k) && selection.labelmatch(labelSelector, m.sessions[k].session.Labels) ==> (exists i in 0..len(controllers) :: controllers[i] == m.sessions[k])
+//@   loop 1 invariant[keys] injective(m) ==> forall i in 0..len(controllers) :: forall k string :: insess(m, k) && m.sessions[k] == controllers[i] ==> visited(k)
+//@   loop 1 invariant[nodup] injective(m) ==> forall i in 0..len(controllers) :: forall j in 0..i :: controllers[i] != controllers[j]
+
+// Selection of all sessions: exactly the registry's controllers.
+//@ func (*Manager).allControllers
+//@   requires m != nil && m.sessionsLock != nil && m.sessionsLock.tracker != nil
+//@   ensures[sound] forall i in 0..len(result) :: issession(m, result[i])
+//@   ensures[complete] forall k string :: insess(m, k) ==> (exists i in 0..len(result) :: result[i] == m.sessions[k])
+//@   ensures[nodup] injective(m) ==> forall i in 0..len(result) :: forall j in 0..i :: result[i] != result[j]
+//@   loop 1 invariant[list] forall i in 0..len(controllers) :: exists k string :: visited(k) && insess(m, k) && m.sessions[k] == controllers[i]
+//@   loop 1 invariant[keys] injective(m) ==> forall i in 0..len(controllers) :: forall k string :: insess(m, k) && m.sessions[k] == controllers[i] ==> visited(k)
+//@   loop 1 invariant[nodup] injective(m) ==> forall i in 0..len(controllers) :: forall j in 0..i :: controllers[i] != controllers[j]
+//@   loop 1 invariant[listed] forall k string :: visited(k) && insess(m, k) ==> (exists i in 0..len(controllers) :: controllers[i] == m.sessions[k])
+
+// Dispatch: each mechanism is handed the selection's own specifications or
+// selector text; every selected controller is a registered session.
+//@ func (*Manager).selectControllers
+//@   requires m != nil && m.sessionsLock != nil && m.sessionsLock.tracker != nil && selection != nil
+//@   at call (*Manager).allControllers assert[dispatch] selection.All
+//@   at call (*Manager).findControllersBySpecification assert[dispatch] !selection.All && len(selection.Specifications) > 0 && arg1 == selection.Specifications
+//@   at call (*Manager).findControllersByLabelSelector assert[dispatch] !selection.All && len(selection.Specifications) == 0 && arg1 == selection.LabelSelector
+//@   ensures[members] result1 == nil ==> forall i in 0..len(result0) :: issession(m, result0[i])
+
+// ------------------------------------------------------------ listing
+// A state snapshot is a deep copy of the controller's state (trusted:
+// proto.Clone; the controller's state always carries both endpoint states).
+// snaplen/snapexcl name what the snapshot held when it was taken: the length
+// of a list and the excluded count stored next to it. They are indexed by the
+// object that holds the list (the snapshot for conflicts, its endpoint states
+// for problems) and by the list: 0 conflicts, 1 scan problems, 2 transition
+// problems.
+//@ ufunc snaplen(obj int, which int) int
+//@ ufunc snapexcl(obj int, which int) int
+
+//@ func (*controller).currentState
+//@   requires c != nil && c.stateLock != nil && c.stateLock.tracker != nil
+//@   at call proto.Clone assume unboxptr(result, "State") != nil && fresh(unboxptr(result, "State")) && unboxptr(result, "State").AlphaState != nil && fresh(unboxptr(result, "State").AlphaState) && unboxptr(result, "State").BetaState != nil && fresh(unboxptr(result, "State").BetaState) && unboxptr(result, "State").AlphaState != unboxptr(result, "State").BetaState
+//@   at call proto.Clone assume len(unboxptr(result, "State").Conflicts) == snaplen(unboxptr(result, "State"), 0) && unboxptr(result, "State").ExcludedConflicts == snapexcl(unboxptr(result, "State"), 0)
+//@   at call proto.Clone assume len(unboxptr(result, "State").AlphaState.ScanProblems) == snaplen(unboxptr(result, "State").AlphaState, 1) && unboxptr(result, "State").AlphaState.ExcludedScanProblems == snapexcl(unboxptr(result, "State").AlphaState, 1) && len(unboxptr(result, "State").AlphaState.TransitionProblems) == snaplen(unboxptr(result, "State").AlphaState, 2) && unboxptr(result, "State").AlphaState.ExcludedTransitionProblems == snapexcl(unboxptr(result, "State").AlphaState, 2)
+//@   at call proto.Clone assume len(unboxptr(result, "State").BetaState.ScanProblems) == snaplen(unboxptr(result, "State").BetaState, 1) && unboxptr(result, "State").BetaState.ExcludedScanProblems == snapexcl(unboxptr(result, "State").BetaState, 1) && len(unboxptr(result, "State").BetaState.TransitionProblems) == snaplen(unboxptr(result, "State").BetaState, 2) && unboxptr(result, "State").BetaState.ExcludedTransitionProblems == snapexcl(unboxptr(result, "State").BetaState, 2)
+//@   ensures[snapshot] result != nil && fresh(result) && result.AlphaState != nil && fresh(result.AlphaState) && result.BetaState != nil && fresh(result.BetaState) && result.AlphaState != result.BetaState
+//@   ensures[snapshot] len(result.Conflicts) == snaplen(result, 0) && result.ExcludedConflicts == snapexcl(result, 0)
+//@   ensures[snapshot] len(result.AlphaState.ScanProblems) == snaplen(result.AlphaState, 1) && result.AlphaState.ExcludedScanProblems == snapexcl(result.AlphaState, 1) && len(result.AlphaState.TransitionProblems) == snaplen(result.AlphaState, 2) && result.AlphaState.ExcludedTransitionProblems == snapexcl(result.AlphaState, 2)
+//@   ensures[snapshot] len(result.BetaState.ScanProblems) == snaplen(result.BetaState, 1) && result.BetaState.ExcludedScanProblems == snapexcl(result.BetaState, 1) && len(result.BetaState.TransitionProblems) == snaplen(result.BetaState, 2) && result.BetaState.ExcludedTransitionProblems == snapexcl(result.BetaState, 2)
+//@   modifies
+//@   allocates State, EndpointState
+
+// A list of snapshot length n with stored excluded count x is reported
+// truncated to limit entries: the reported length is min(n, limit) and, when
+// entries were cut, the reported excluded count is exactly n - limit (otherwise
+// the stored count is passed on).
+//@ pred truncated(l, x, n, x0, limit) = len(l) == min(n, limit) && x == (n > limit ? n - limit : x0)
+//@ pred endpointlisted(e) = e != nil && truncated(e.ScanProblems, e.ExcludedScanProblems, snaplen(e, 1), snapexcl(e, 1), maximumListScanProblems) && truncated(e.TransitionProblems, e.ExcludedTransitionProblems, snaplen(e, 2), snapexcl(e, 2), maximumListTransitionProblems)
+//@ pred conflictslisted(s) = s != nil && truncated(s.Conflicts, s.ExcludedConflicts, snaplen(s, 0), snapexcl(s, 0), maximumListConflicts)
+
+// Listing: one snapshot per selected controller; every snapshot handed to the
+// final ordering step has each of its five lists truncated exactly; sorting
+// and truncation write only objects created during the call (the snapshot,
+// its endpoint states and the copied lists) - the loop's only writes to
+// earlier objects go to the result slice.
+//@ func (*Manager).List
+//@   requires m != nil && m.sessionsLock != nil && m.sessionsLock.tracker != nil && selection != nil && m.tracker != nil && m.tracker.pollRequests != nil
+//@   at call (*Manager).selectControllers assert[selected] arg1 == selection
+//@   at call SortConflicts assert[copied] len(arg0) == 0 || fresh(arg0)
+//@   at call SortProblems assert[copied] len(arg0) == 0 || fresh(arg0)
+//@   at call sort.Slice assert[truncated] len(states) == len(controllers)
+//@   at call sort.Slice assert[truncated] forall j in 0..len(states) :: conflictslisted(states[j])
+//@   at call sort.Slice assert[truncated] forall j in 0..len(states) :: endpointlisted(states[j].AlphaState)
+//@   at call sort.Slice assert[truncated] forall j in 0..len(states) :: endpointlisted(states[j].BetaState)
+//@   loop 1 invariant[count] len(states) == len(controllers) && rangeindex < len(controllers)
+//@   loop 1 invariant[truncated] forall j in 0..rangeindex+1 :: conflictslisted(states[j])
+//@   loop 1 invariant[truncated] forall j in 0..rangeindex+1 :: endpointlisted(states[j].AlphaState)
+//@   loop 1 invariant[truncated] forall j in 0..rangeindex+1 :: endpointlisted(states[j].BetaState)
+//@   loop 1 modifies states[*]
+//@   loop 2 modifies state.Conflicts[*]
